@@ -360,8 +360,10 @@ def rewrites(text):
             put('ccomment:' + tag, lines[:s] + ['c a comment line'] + lines[s:])
             put('ccomment:%s-indented' % tag, lines[:s] + ['    C  indented comment 1 2 3 $ &'] + lines[s:])
             put('ccomment:%s-bare' % tag, lines[:s] + ['c'] + lines[s:])
+            put('ccomment:%s-tab' % tag, lines[:s] + ['c\ta comment after a tab'] + lines[s:])
             if not single:
                 put('ccomment-inside:' + tag, lines[:s + 1] + ['C'] + lines[s + 1:])
+                put('ccomment-inside:%s-tab' % tag, lines[:s + 1] + ['c\t1 2 3'] + lines[s + 1:])
             # blanks / splits at token boundaries (first, middle, last) of the first line
             code = L.split('$')[0]
             blanks = [m.start() for m in re.finditer(r'(?<=\S) (?=\S)', code)]
